@@ -4,7 +4,7 @@ from datetime import date, datetime, time
 from ipaddress import IPv4Address, IPv4Interface, IPv4Network, IPv6Address, IPv6Interface, IPv6Network
 from itertools import chain
 from pathlib import Path, PosixPath, PurePath, PurePosixPath, PureWindowsPath, WindowsPath
-from typing import Any, Optional, TypeVar, overload
+from typing import Any, Optional, TypeVar, Union, overload
 from uuid import UUID
 
 from ...common import Dumper, Loader, TypeHint, VarTuple
@@ -49,6 +49,7 @@ from ..generic_provider import (
 )
 from ..iterable_provider import IterableProvider
 from ..json_schema.providers import InlineJSONSchemaProvider, JSONSchemaRefProvider
+from ..load_error import TypeLoadError, ValueLoadError
 from ..model.crown_definitions import ExtraSkip
 from ..model.dumper_provider import ModelDumperProvider
 from ..model.loader_provider import ModelLoaderProvider
@@ -68,6 +69,20 @@ from .provider import (
     loader,
     name_mapping,
 )
+
+
+def _make_constructor_loader(tp: type) -> Loader:
+    """Constructor of a stdlib class used as a loader: its own exceptions are translated into LoadError"""
+
+    def constructor_loader(data):
+        try:
+            return tp(data)
+        except ValueError as e:  # including ipaddress.AddressValueError and ipaddress.NetmaskValueError
+            raise ValueLoadError(str(e), data)
+        except (TypeError, AttributeError, IndexError):  # e.g. UUID(5), Path(None), IPv4Network(())
+            raise TypeLoadError(Union[str, tp], data)
+
+    return constructor_loader
 
 
 class FilledRetort(OperatingRetort, ABC):
@@ -104,7 +119,7 @@ class FilledRetort(OperatingRetort, ABC):
 
         *chain.from_iterable(
             (
-                loader(tp, tp),
+                loader(tp, _make_constructor_loader(tp)),
                 dumper(tp, tp.__str__),  # type: ignore[arg-type]
             )
             for tp in [
@@ -116,7 +131,7 @@ class FilledRetort(OperatingRetort, ABC):
         ),
         *chain.from_iterable(
             (
-                loader(tp, tp),
+                loader(tp, _make_constructor_loader(tp)),
                 dumper(tp, tp.__fspath__),  # type: ignore[attr-defined]
             )
             for tp in [
